@@ -94,6 +94,8 @@ func checkC15(c *Check) {
 	ruleSyntheticEOF(c, p, "R15.4")
 	ruleOrderingGoroutineLatch(c, p, "R15.5")
 	ruleBlocksCloseLatch(c, p, "R15.6")
+	ruleLockset(c, p, "R15.7")
+	c.RuleDoc["R15.7"] = "the sink-error latch is read only under its lock, inside the ordering goroutine, or in Blocks.close after the shutdown handshake (a read before the handshake misses errors of blocks still in flight)"
 }
 
 // R15.5: in initW's goroutine the sink write is governed by Blocks.err == nil
